@@ -169,6 +169,9 @@ class Exec:
                 tm.add_transform(op["frame"], parent, arr)
                 e.setdefault("arrs", {})[op["frame"]] = arr
             return {}
+        if k == "remount":
+            tm.add_transform(op["frame"], op["link"], np.array(op["pose"], dtype=float))
+            return {}
         if k == "base":
             tm.add_transform(e["base"], "origin", np.array(op["pose"], dtype=float))
             return {}
